@@ -44,7 +44,7 @@ theorem decode_encode_named (R : Registry) (gz : Bytes → Option Bytes) (hR : W
     (id : Nat) (v : Val) (bs rest : Bytes) (fuel : Nat)
     (hwt : WT R (.ptr id) v) (henc : marshal R v = .ok bs) (hf : need v ≤ fuel) :
     ∃ v', decodeNamed R gz fuel id (bs ++ rest) = .ok v' ∧ erase v' = erase v := by
-  obtain ⟨v', hdec, her⟩ := rt_val R gz hR v (.ptr id) bs rest [] fuel hwt henc hf
+  obtain ⟨v', hdec, her⟩ := rt_val R gz 0 hR v (.ptr id) bs rest [] fuel hwt henc hf
   exact ⟨v', by simp [decodeNamed, hdec], her⟩
 
 /-- **Letting the decoder choose the type from the constructor id** (`tl.DecodeUnknownObject`). -/
@@ -52,11 +52,11 @@ theorem decode_encode_unknown (R : Registry) (gz : Bytes → Option Bytes) (hR :
     (v : Val) (bs rest : Bytes) (fuel : Nat)
     (hwt : WT R (.iface "tl.Object") v) (henc : marshal R v = .ok bs) (hf : need v ≤ fuel + 1) :
     ∃ v', decodeUnknown R gz fuel [] (bs ++ rest) = .ok v' ∧ erase v' = erase v := by
-  obtain ⟨v', hdec, her⟩ := rt_val R gz hR v (.iface "tl.Object") bs rest [] (fuel + 1) hwt henc hf
+  obtain ⟨v', hdec, her⟩ := rt_val R gz 0 hR v (.iface "tl.Object") bs rest [] (fuel + 1) hwt henc hf
   refine ⟨v', ?_, her⟩
   simp only [decVal] at hdec
   unfold decodeUnknown
-  cases hreg : decRegistered R gz fuel (bs ++ rest) [] with
+  cases hreg : decRegistered R gz 0 fuel (bs ++ rest) [] with
   | err e => simp [hreg] at hdec
   | panic s => simp [hreg] at hdec
   | ok p =>
@@ -69,11 +69,11 @@ theorem decode_encode_unknown (R : Registry) (gz : Bytes → Option Bytes) (hR :
     · cases hdec
 
 /-- the same for a value in any typed position (field, vector element, interface) -/
-theorem decode_encode_value (R : Registry) (gz : Bytes → Option Bytes) (hR : WFR R)
+theorem decode_encode_value (R : Registry) (gz : Bytes → Option Bytes) (dp : Nat) (hR : WFR R)
     (ty : Ty) (v : Val) (bs rest : Bytes) (hs : List Ty) (fuel : Nat)
     (hwt : WT R ty v) (henc : encVal R v = .ok bs) (hf : need v ≤ fuel) :
-    ∃ v', decVal R gz fuel ty (bs ++ rest) hs = .ok (v', rest, hs) ∧ erase v' = erase v :=
-  rt_val R gz hR v ty bs rest hs fuel hwt henc hf
+    ∃ v', decVal R gz dp fuel ty (bs ++ rest) hs = .ok (v', rest, hs) ∧ erase v' = erase v :=
+  rt_val R gz dp hR v ty bs rest hs fuel hwt henc hf
 
 /-! ## flag groups -/
 
